@@ -103,7 +103,13 @@ def nontrivial_gates(net):
 
 # ------------------------------------------------------------------ monitors
 
+DBS = {}   # id(db) -> (db, 'aig'|'xaig') for databases opened by the workload
+
+
 def _basis_of(db):
+    ent = DBS.get(id(db))
+    if ent is not None and ent[0] is db:
+        return ent[1]
     src = getattr(db, '_db_source', None)
     name = os.path.basename(str(src)) if src is not None else ''
     if name.startswith('aig_db'):
@@ -281,9 +287,8 @@ def post_model_lookup(st, args, kwargs, result):
 def _stored_size(db, basis, key):
     c = CUR['sizes'].get((basis, key))
     if c is None:
-        from cirbo.circuits_db.circuits_encoding import decode_circuit
         with monitor.suspended():
-            circ = decode_circuit(db._dict[key])
+            circ = db.get_by_label(key)
         c = nontrivial_gates(refsem.net_of(circ))
         CUR['sizes'][(basis, key)] = c
     return c
@@ -308,6 +313,7 @@ def open_db(name):
         CUR['ctx'].note_inconclusive('default %s database path %s is not the repository file' % (name, path))
     db = CircuitsDatabase(path)
     db.open()
+    DBS[id(db)] = (db, name)
     keys = read_keys(db_path(name))
     CUR['index'][name] = set(keys)
     return db, keys
